@@ -118,6 +118,7 @@ pub fn gen_source_cache(rng: &mut Rng, tier: &Tier) -> Vec<Case> {
         for _ in 0..rng.range(2, 10) {
             c.push("pull 1".into());
             c.push("pull 2".into());
+            c.push("ssame 1 2 C20.source-cache-transparent".into());
             c.push("cached 1".into());
         }
         cases.push(c);
@@ -340,7 +341,8 @@ pub fn gen_pipes(rng: &mut Rng, tier: &Tier) -> Vec<Case> {
         for t in &trees_k {
             let shape = decorate(rng, t, cfg!(feature = "or_sink"));
             let leaves: Vec<String> = (0..k).map(|_| pipe_leaf(rng)).collect();
-            let sink = *rng.pick(&["sink_collect", "sink_collect", "sink_mean", "sink_last", "sink_max", "sink_integrate", "sink_stats"]);
+            // the harness's own sinks: a defect of a library sink is C11's business, not C01's
+            let sink = *rng.pick(&["own_collect", "own_collect", "own_sum"]);
             let mut c = vec![format!("new 1 pipe shape={} leaves={} sink={}", shape, leaves.join("|"), sink), "pfin 1".to_string()];
             for _ in 0..rng.range(1, 7) {
                 c.push(format!("psink 1 {}", rng.range(-5, 5)));
